@@ -51,6 +51,7 @@ pub fn cheat_name(c: &Cheat) -> &'static str {
 
 pub fn c01(ctx: &mut Ctx) {
     oods_binding(ctx);
+    real_layout_forgeries(ctx);
     let scenario = "c01.byzantine";
     let n_runs: u64 = if ctx.is_quick() { 320 } else { 12_000 };
     for k in 0..n_runs {
@@ -251,4 +252,92 @@ pub fn replay_oods_binding(rep: &serde_json::Value) -> Result<(bool, String), St
     let o: Outcome = crate::with_layout!(layout.as_str(), oods_with_statement, &proof, &pi);
     let violated = if rep["expect"].as_str() == Some("ok") { !o.is_accept() } else { o.is_accept() };
     Ok((violated, o.describe()))
+}
+
+// ------------------------------------------------------------------------------------------
+// constant-column forger on the 7 real layouts
+// ------------------------------------------------------------------------------------------
+
+use crate::forger::{self, Seam};
+use swiftness_air::layout::GenericLayoutTrait;
+
+fn forge_and_run<L: LayoutTrait + GenericLayoutTrait>(layout: &str, pi: &PublicInput, seam: Seam, rng: &mut Rng) -> Result<(forger::Forgery, proofrun::ProofRun), String> {
+    let f = forger::forge::<L>(pi, seam, rng)?;
+    let run = proofrun::run_proof(layout, &f.proof, f.security, 200_000_000);
+    Ok((f, run))
+}
+
+fn expected_stop(seam: Seam) -> &'static str {
+    match seam {
+        Seam::OodsEq => "REJECT(Commit(Oods(EvaluationInvalid)))",
+        Seam::OodsLen => "REJECT(Commit(Oods(InvalidLength)))",
+        Seam::MerkleComp => "REJECT(Verify(TableDecommitError(Vector(MisMatch))))",
+        Seam::FriAdaptive => "REJECT(Verify(FriError(LayerDecommitmentError)))",
+        Seam::PowSkip => "REJECT(Commit(POW(ProofOfWorkFail)))",
+        Seam::LowSec => "REJECT(Validation(InsufficientSecurity))",
+    }
+}
+
+pub fn real_layout_forgeries(ctx: &mut Ctx) {
+    let scenario = "c01.forger";
+    let mut unit = 7_000_000u64;
+    let paths = stone_loader::shipped_proof_paths();
+    let reps = if ctx.is_quick() { 1 } else { 6 };
+    for (pi_idx, path) in paths.iter().enumerate() {
+        // quick: one statement per layout is enough (the statement only feeds validation and V(z))
+        if ctx.is_quick() && !path.contains("stone5") && !path.contains("dynamic") {
+            continue;
+        }
+        let l = match stone_loader::load_file(path) {
+            Ok(l) => l,
+            Err(e) => ctx.harness_error(&format!("{path}: {e}")),
+        };
+        let pi: PublicInput = serde_json::from_value(l.proof["public_input"].clone()).unwrap();
+        let layout = l.layout.clone();
+        for seam in forger::SEAMS {
+            for r in 0..reps {
+                let mine = ctx.mine(unit);
+                unit += 1;
+                if !mine {
+                    continue;
+                }
+                ctx.begin_run(scenario, unit);
+                let forge_seed = ctx.seed ^ (pi_idx as u64) << 20 ^ (r as u64) << 8 ^ seam as u64;
+                let mut rng = Rng::derive(forge_seed, scenario, 0);
+                let res: Result<(forger::Forgery, proofrun::ProofRun), String> = crate::with_layout!(layout.as_str(), forge_and_run, layout.as_str(), &pi, seam, &mut rng);
+                let (f, run) = match res {
+                    Ok(x) => x,
+                    Err(e) => ctx.harness_error(&format!("forger failed on {path} ({layout}, {seam:?}): {e}")),
+                };
+                ctx.stats.evaluations += 1;
+                ctx.stats.fired(&format!("forger:{seam:?}"));
+                ctx.stats.ticks_total += run.ticks;
+                let oc = run.outcome.class();
+                ctx.stats.state(format!("{layout}|forger|{seam:?}|{oc}"));
+                if oc == expected_stop(seam) {
+                    ctx.stats.probe(&format!("forger-stopped-only-by-intended-check:{seam:?}"));
+                } else if oc.starts_with("REJECT(Validation") || oc.starts_with("REJECT(PublicInputError") || oc.starts_with("REJECT(ColumnMissing") {
+                    // the forgery is malformed before it reaches its seam: a harness defect, not a verdict
+                    ctx.harness_error(&format!("forger ({layout}, {seam:?}) did not reach its seam: {}", run.outcome.describe()));
+                } else {
+                    ctx.stats.probe(&format!("forger-stopped-elsewhere:{seam:?}:{oc}"));
+                }
+                if !f.air_violated_at_z {
+                    ctx.stats.probe("forger-constant-trace-satisfies-air-at-z(by luck)");
+                    continue;
+                }
+                if run.outcome.is_accept() {
+                    let image = serde_json::to_value(&f.proof).unwrap();
+                    let rep = replay_envelope("C01", scenario, &ctx.variant, json!({
+                        "base": {"kind": "image", "layout": layout, "image": image}, "layout": layout, "faults": [],
+                        "oracle": "forgery-accepted", "expected_outcome": run.outcome.describe(),
+                        "extra": {"statement_of": path, "seam": format!("{seam:?}"), "forge_seed": forge_seed}}));
+                    ctx.violation(&format!("C01|forgery-accepted|real-layout|{seam:?}"), &format!("constant-column forgery ({seam:?}) for the statement of {path} accepted under layout {layout}: the committed trace violates the AIR at z"), rep);
+                }
+                if ctx.stats.samples.len() < 6 {
+                    ctx.stats.sample(json!({"layout": layout, "seam": format!("{seam:?}"), "outcome": oc}));
+                }
+            }
+        }
+    }
 }
